@@ -147,7 +147,11 @@ func settingsOf(o *options.Options) []cfgSetting {
 	leg("provider", string(pr.Type))
 	leg("provider-display-name", pr.ID)
 	leg("client-id", pr.ClientID)
-	leg("client-secret", pr.ClientSecret)
+	if pr.ClientSecretFile != "" {
+		leg("client-secret-file", pr.ClientSecretFile)
+	} else {
+		leg("client-secret", pr.ClientSecret)
+	}
 	leg("oidc-issuer-url", pr.OIDCConfig.IssuerURL)
 	leg("insecure-oidc-skip-nonce", pr.OIDCConfig.InsecureSkipNonce)
 	leg("insecure-oidc-allow-unverified-email", pr.OIDCConfig.InsecureAllowUnverifiedEmail)
